@@ -8,6 +8,8 @@ import (
 	"log/slog"
 	"math"
 	"math/big"
+	"os"
+	"path/filepath"
 	"runtime"
 	"slices"
 	"sync"
@@ -45,16 +47,16 @@ type answer struct {
 }
 
 type script struct {
-	R, P      float64 `json:"-"`
-	RBits     uint64  `json:"r_bits"`
-	PBits     uint64  `json:"p_bits"`
-	Cutoff    int64   `json:"cutoff"`
-	Interval  int64   `json:"interval"`
-	Timeout   int64   `json:"timeout"`
-	Unknown   bool    `json:"unknown_drift"`
-	DriftRate float64 `json:"drift_rate"`
-	NRef      int     `json:"nref"`
-	NPeer     int     `json:"npeer"`
+	R, P      float64    `json:"-"`
+	RBits     uint64     `json:"r_bits"`
+	PBits     uint64     `json:"p_bits"`
+	Cutoff    int64      `json:"cutoff"`
+	Interval  int64      `json:"interval"`
+	Timeout   int64      `json:"timeout"`
+	Unknown   bool       `json:"unknown_drift"`
+	DriftRate float64    `json:"drift_rate"`
+	NRef      int        `json:"nref"`
+	NPeer     int        `json:"npeer"`
 	Rounds    [][]answer `json:"rounds"` // per round: nref+npeer answers
 }
 
@@ -100,11 +102,11 @@ type fakeClk struct {
 	sleeps int
 }
 
-func (c *fakeClk) Epoch() uint64                            { return 0 }
-func (c *fakeClk) Now() time.Time                           { return time.Now() }
-func (c *fakeClk) Drift(d time.Duration) time.Duration      { return c.w.s.drift(d) }
-func (c *fakeClk) Step(time.Duration)                       {}
-func (c *fakeClk) Adjust(_, _ time.Duration, _ float64)     {}
+func (c *fakeClk) Epoch() uint64                        { return 0 }
+func (c *fakeClk) Now() time.Time                       { return time.Now() }
+func (c *fakeClk) Drift(d time.Duration) time.Duration  { return c.w.s.drift(d) }
+func (c *fakeClk) Step(time.Duration)                   {}
+func (c *fakeClk) Adjust(_, _ time.Duration, _ float64) {}
 func (c *fakeClk) Sleep(d time.Duration) {
 	c.w.add(event{"sleep", int64(d)})
 	c.sleeps++
@@ -427,7 +429,9 @@ var rec = ev.New("c01/sync-rounds", "rapid state histories: configuration (impac
 func TestPropSyncLoop(t *testing.T) {
 	vt.Check(t, 15000, 100000, func(t *rapid.T) {
 		s := genScript(t)
+		disarm := vt.Watchdog(t, 90*time.Second, s, "sync.Run did not reach the end of the scripted rounds")
 		msg, vs, _ := run(s)
+		disarm()
 		if msg != "" {
 			t.Fatalf("%s", msg)
 		}
@@ -444,4 +448,32 @@ func TestPropSyncLoop(t *testing.T) {
 			}, v.labels...)
 		}
 	})
+}
+
+// TestReplay re-runs saved cases (corpus and --replay of a JSON case) without the library.
+func TestReplay(t *testing.T) {
+	files, _ := filepath.Glob(filepath.Join(vt.CorpusDir("C01"), "*.json"))
+	if p := vt.ReplayCase(); p != "" {
+		files = []string{p}
+	}
+	for _, p := range files {
+		b, err := os.ReadFile(p)
+		if err != nil {
+			t.Fatal(err)
+		}
+		var w struct {
+			Case script `json:"case"`
+		}
+		if err := json.Unmarshal(b, &w); err != nil {
+			t.Fatalf("%s: %v", p, err)
+		}
+		s := &w.Case
+		s.R, s.P = math.Float64frombits(s.RBits), math.Float64frombits(s.PBits)
+		disarm := vt.Watchdog(t, 90*time.Second, s, "sync.Run did not reach the end of the scripted rounds")
+		msg, _, _ := run(s)
+		disarm()
+		if msg != "" {
+			vt.Violation(t, s, "%s", msg)
+		}
+	}
 }
